@@ -38,7 +38,7 @@ Second part (Model/C12Ext.lean):
   {"op":"bin_on_index","index":n|[n..],"bins":nested}   -> {"r":nested}
   {"op":"csv_text","h":hist,"to_csv":bool,"ctx_dup":bool|null,"dup":bool,"sep":str,"header":str|null,"row_end":str,
    "last_row_end":str}                                  -> {"unchanged":true} | {"text":str}
-  {"op":"fmt","xs":[q..]}                               -> {"r":[str..]}          ("{:f}")
+  {"op":"fmt","xs":[q..]}                               -> {"r":[str..],"parsed":[[neg,millionths]..]}   ("{:f}" and parseFixed of it)
   {"op":"group_scale","seq":bool, …as scale_to}         -> as scale_to
   {"op":"graph_add_any","a":graph,"b":graph|"other"|{"hist":hist}}   -> as graph_add
   {"op":"h2g_el","mv":null|"double"|"pair"|"triple"|"notvar","mode":str,"fields":names,"scale":..,"is_hist":bool,
@@ -473,7 +473,9 @@ def handle (j : Json) : Json :=
     | _, _, _, _, _, _, _ => err "bad csv_text args"
   | some "fmt" =>
     match ratList? (getD j "xs") with
-    | some xs => Json.mkObj [("r", ofList (fun x => Json.str (fmtF x)) xs)]
+    | some xs => Json.mkObj [("r", ofList (fun x => Json.str (fmtF x)) xs),
+                             ("parsed", ofList (fun x => let p := parseFixed (fmtF x).toList
+                                                         Json.arr #[Json.bool p.1, ofNat p.2]) xs)]
     | none => err "bad fmt args"
   | some "group_scale" =>
     let tj := getD j "target"
@@ -521,14 +523,17 @@ def handle (j : Json) : Json :=
       let cs := NArr.cells h.bins
       let cellJ (p : List Nat × Rat) : Json :=
         Json.mkObj [("idx", ofList ofNat p.1), ("in_range", Json.bool (inRangeB axes p.1)),
-                    ("edges", ofList pairJson (cellEdgesRef axes p.1)), ("row", ofList ratJson (cellRow axes p))]
+                    ("edges", ofList pairJson (cellEdgesRef axes p.1)), ("row", ofList ratJson (cellRow axes p)),
+                    ("volume", ratJson (cellVolume (cellEdgesRef axes p.1)))]
       let (vr, sel) := match rg with
         | none => (Json.null, Json.null)
         | some r => (Json.bool (validRangesB axes r),
                      ofList (fun (p : List Nat × Rat) => ofList ofNat p.1) (cs.filter (fun p => selAll (List.zipWith rangePred axes r) p.1)))
       Json.mkObj [("wf", Json.bool (wfB h)), ("valid", Json.bool (validB h)), ("nonempty_axes", Json.bool (nonEmptyAxesB h.edges)),
                   ("index_prod", ofList (ofList ofNat) (NArr.indexProd (h.nbins.map List.range))),
-                  ("cells", ofList cellJ cs), ("valid_ranges", vr), ("selected", sel)]
+                  ("cells", ofList cellJ cs), ("valid_ranges", vr), ("selected", sel),
+                  ("integral_ref", ratJson (integralRef axes h.bins)),
+                  ("valid_u", Json.bool (wfB h && (match checkEdgesIncreasing h.edges with | .ok _ => true | .error _ => false)))]
     | _, _ => err "bad spec_hist args"
   | some "gchain" =>
     let src := getD j "src"
